@@ -1402,6 +1402,120 @@ def unit(item):
     return p
 
 
+# ===================================================================================================
+# sampler-level units: the bounded location samplers themselves, two simultaneous deviations, far normal draws
+# ===================================================================================================
+
+
+class SeamFar(Seam18):
+    """Seam18 whose normal draws have two more answers (mean +/- 4 sigma).  Used ONLY by the sampler-level units:
+    a clamp that is not in place shows when a cluster centre near the border of its range (one deviation) meets a
+    far draw in the outward direction (a second one) - two simultaneous deviations, beyond the generator grid's bound."""
+
+    def _normal_pattern(self, shape, dtype, device, mean=0.0, std=1.0):
+        c = self.choose("normal", 6 if self.float_patterns else 1)
+        dtype = dtype if dtype in (torch.float32, torch.float64) else torch.float32
+        if c == 0:
+            z = _seam_orig_randn(tuple(shape), generator=self._gen(), dtype=dtype)
+        else:
+            z = torch.full(tuple(shape), {1: 0.0, 2: 2.0, 3: -2.0, 4: 4.0, 5: -4.0}[c], dtype=dtype)
+        out = mean + std * z
+        return out.to(device) if device is not None else out
+
+
+def _seam_orig_randn(*a, **kw):
+    from .. import seam as _s
+
+    return _s._ORIG["randn"](*a, **kw)
+
+
+SAMPLER_GRID = [  # (class name, constructor kwargs, batch, num_loc) - the samplers documented to stay inside [0, 1]
+    ("Cluster", dict(n_cluster=1), 1, 4),
+    ("Cluster", dict(n_cluster=2), 2, 4),
+    ("Mixed", dict(n_cluster_mix=1), 1, 4),
+    ("Mixed", dict(n_cluster_mix=1), 2, 5),
+    ("Mixed", dict(n_cluster_mix=2), 1, 8),
+]
+
+
+def explore_far(run, max_dev, seed, limit=50_000):
+    stack, n = [[]], 0
+    while stack:
+        prefix = stack.pop()
+        seam = SeamFar(prefix, seed=seed, perm_all_upto=0)
+        res = run(seam)
+        n += 1
+        if n > limit:
+            raise ExplorationCapped(n)
+        ch = seam.choices()
+        if ch[: len(prefix)] != prefix:
+            raise ReplayDivergence(f"prefix {prefix} replayed as {ch[:len(prefix)]}")
+        yield ch, res, seam
+        base_dev = n_deviations(ch[: len(prefix)])
+        for i in range(len(ch) - 1, len(prefix) - 1, -1):
+            if base_dev + n_deviations(ch[len(prefix) : i]) + 1 > max_dev:
+                continue
+            for alt in range(seam.points[i][1] - 1, 0, -1):
+                stack.append(ch[:i] + [alt])
+
+
+def run_sampler(name, kw, B, n, seam):
+    try:
+        with seam.active():
+            return getattr(DU, name)(**kw).sample((B, n, 2))
+    except ReplayDivergence:
+        raise
+    except Exception as e:  # noqa: BLE001
+        return e
+
+
+def judge_sampler(out, B, n):
+    if isinstance(out, Exception):
+        return f"crash:{type(out).__name__}", f"sample raised {type(out).__name__}: {str(out)[:160]}"
+    if tuple(out.shape) != (B, n, 2):
+        return "shape", f"shape {tuple(out.shape)} for requested {(B, n, 2)}"
+    if not bool(torch.isfinite(out).all()):
+        return "range:locs", "non-finite coordinates"
+    if float(out.min()) < 0.0 or float(out.max()) > 1.0:
+        return "range:locs", f"coordinates outside [0, 1]: min {float(out.min()):.4f} max {float(out.max()):.4f}"
+    return None
+
+
+def sampler_unit(item):
+    _, tier, seed = item
+    p = Partial()
+    max_dev = 2 if tier == "quick" else 3
+    for name, kw, B, n in SAMPLER_GRID:
+        label = f"{name}({','.join(f'{k}={v}' for k, v in kw.items())}) B={B} n={n}"
+        emitted, n_exec = 0, 0
+        try:
+            for choices, out, seam in explore_far(lambda s: run_sampler(name, kw, B, n, s), max_dev, seed):
+                n_exec += 1
+                p.add(states=1, transitions=len(seam.points), distinct_count=1, evaluations=B)
+                bad = judge_sampler(out, B, n)
+                p.outcome(f"sampler|{label}|{'ok' if bad is None else bad[0]}|{jhash([round(float(x), 4) for x in out.flatten()[:6]]) if not isinstance(out, Exception) else 'x'}")
+                if bad is not None:
+                    if emitted < 2:
+                        emitted += 1
+                        p.violation(
+                            dict(property=PID, env=f"sampler:{name}", config=label, observable=bad[0], trigger=f"{n_deviations(choices)}_deviations"),
+                            dict(kind="sampler", sampler=name, kwargs=kw, batch=B, num_loc=n, choices=list(choices), seed=seed),
+                            f"distribution_utils.{label} choices={choices}: {bad[1]}",
+                        )
+                    else:
+                        p.add(violations_raw=1)
+        except ExplorationCapped:
+            p.add(caps_hit=1)
+            p.note(f"harness: sampler exploration of {label} capped")
+        p.add(configs=1)
+        p.sample(dict(sampler=label, executions=n_exec, max_dev=max_dev, normal_answers="seeded, mean, +-2 sigma, +-4 sigma"), cap=6)
+    return p
+
+
+def any_unit(item):
+    return sampler_unit(item) if item[0] == "samplers" else unit(item)
+
+
 DOC_NOTES = [
     "doc: docstrings that disagree with the emitted format were NOT treated as violations: CVRP 'capacity [batch_size]' (emitted [B,1], as CVRPTW documents); OP 'max_length [batch_size,1]' (emitted [B]); FLP 'to_choose [batch_size,1]' (emitted [B]); SVRP 'techs/skills [batch_size,num_loc]' (emitted [B,num_tech,1] / [B,num_loc,1]); CVRPTW 'durations/time_windows [..num_loc..]' (emitted with the depot: num_loc+1); FFSP 'run_time [B,num_job,num_machine,num_stage]' (emitted [B,num_job,num_machine*num_stage]); ATSP documents 'locs' (emits cost_matrix); PCTSP documents CVRP's demand/capacity (emits penalty / deterministic_prize / stochastic_prize); FJSP/JSSP document FFSP's arguments",
     "doc: MTVRPGenerator accepts loc_distribution / loc_sampler but always samples uniformly (generate_locations); OPGenerator ignores min_prize / max_prize / prize_distribution (prize_type decides); FFSP run times are drawn from [min_time, max_time) although max_time is documented as the maximum",
@@ -1426,7 +1540,7 @@ def main(tier):
     ]
     seed = seed_from_env()
     units = make_units(tier, seed)
-    rep.merge_all(pmap(unit, units))
+    rep.merge_all(pmap(any_unit, units + ([("samplers", tier, seed)] if not os.environ.get("VERIF_ONLY") or os.environ.get("VERIF_ONLY") in "samplers" else [])))
     for l in DOC_NOTES:
         rep.info.append(l)
     rep.extra["generators"] = sorted({it["gen"] for _, _, u in units for it in u})
@@ -1435,6 +1549,11 @@ def main(tier):
 
 
 def replay(rec):
+    if rec.get("kind") == "sampler":
+        out = run_sampler(rec["sampler"], rec["kwargs"], rec["batch"], rec["num_loc"], SeamFar(rec["choices"], seed=rec["seed"], perm_all_upto=0))
+        bad = judge_sampler(out, rec["batch"], rec["num_loc"])
+        want = rec.get("signature", {}).get("observable")
+        return (bad is not None and want in (None, bad[0])), f"distribution_utils.{rec['sampler']}({rec['kwargs']}).sample(({rec['batch']}, {rec['num_loc']}, 2)) choices={rec['choices']} seed={rec['seed']}: {bad[1] if bad else 'inside [0, 1]'}"
     R = Runner(rec["generator"], rec["config"], rec["batch"])
     want = rec.get("signature", {}).get("observable")
     if R.ctor_error is not None:
